@@ -225,6 +225,7 @@ class Analysis:
         for op, a, b in assume:
             self.init += cons(op, a, b)
         self.visits = {}
+        self.defs = {}            # quotient variable -> its defining constraints (k*q <= a <= k*q + k - 1)
         self.heads = self._loop_heads()
         self.solver = None
 
@@ -252,7 +253,23 @@ class Analysis:
         return self._ty(name).get("kind") in INT_KINDS
 
     def _bounds(self, vs):
-        return [le0(-Lin.var(v)) for v in vs if v in self.unsigned]
+        """Facts that hold of the variables whatever the state: unsigned types are >= 0, a quotient variable lies in its bracket."""
+        out = []
+        seen = set()
+        work = list(vs)
+        while work:
+            v = work.pop()
+            if v in seen:
+                continue
+            seen.add(v)
+            if v in self.unsigned:
+                out.append(le0(-Lin.var(v)))
+            if v in self.defs:
+                for c in self.defs[v]:
+                    out.append(c)
+                    if isinstance(c, tuple):
+                        work.extend(x for x, _ in c[0])
+        return out
 
     def _loop_heads(self):
         f = self.f
@@ -375,6 +392,16 @@ class Analysis:
                 return None
             if e.op == "<<" and a is not None and b is not None and b.is_const() and 0 <= b.k < 62:
                 return a.scale(2 ** int(b.k))
+            if e.op in ("/", ">>") and a is not None and b is not None and b.is_const() and b.k.denominator == 1:
+                # floor division of a non-negative value by a positive constant: a quotient variable q with k*q <= a <= k*q + k - 1
+                k = int(b.k) if e.op == "/" else (2 ** int(b.k) if 0 <= b.k < 62 else 0)
+                if k >= 1 and (self._is_unsigned(e.kid(0).ty) or self.holds(st, ">=", a, Lin.const(0))):
+                    n = self.nm(e)
+                    if _pure(n):
+                        q = Lin.var(n)
+                        self.unsigned.add(n)
+                        self.defs[n] = cons("<=", q.scale(k), a) + cons("<=", a, q.scale(k) + (k - 1))
+                        return q
             return None
         if c == "CallExpr":
             return Lin.var(("$ret", self.f.name, e.pos))
